@@ -9,6 +9,8 @@ from ..report import fkey
 from ..rules import guards
 from ..rules.common import *
 
+META = {'technique': 'static analysis: CFG reachability / dominance and data-flow origins over the time limiter (inlined view of extracted helpers); caller exception-handling rule'}
+
 EXPLANATION = (
     'Structure only.  Decided: the asynchronous exception is addressed to the identity of the thread object '
     'obtained *inside* the single pool worker (data flow from pool.apply(current_thread)), never to an identity '
